@@ -20,11 +20,15 @@ InOf(r, clamp) ==
    start |-> r.s, end |-> r.en, mode |-> r.mode, c |-> r.c, mt |-> r.mt, wait |-> r.wait = 1,
    mi |-> r.mi, g |-> r.g, N |-> r.N, l3 |-> r.l3, gspan |-> 16, rec |-> r.rec = 1, clamp |-> clamp]
 
+IsIx(r) == "ix" \in DOMAIN r /\ r.ix = 1
+
 Verdicts(r, in, o) ==
   [line |-> l, kind |-> o.kind,
    \* the real call made exactly the invocations the specification computes
+   \* (records of the index-form overloads f(i), "ix" = 1, carry the visits as maximal runs of indices per
+   \*  multiplicity layer - the chunk boundaries are not observable there; c12 below decides on them)
    conforms |-> /\ r.trunc = 0 /\ r.nb = Len(r.b)
-                /\ (r.b = o.bodies \/ SeqToBag(r.b) = SeqToBag(o.bodies)),
+                /\ (IsIx(r) \/ r.b = o.bodies \/ SeqToBag(r.b) = SeqToBag(o.bodies)),
    \* C12 on what was observed: the invocations partition [start, end) ...
    c12 |-> r.trunc = 0 /\ IsPartition(r.b, in.start, Max(in.start, in.end)),
    \* ... and all of them had returned when parallel_for / TaskSet::wait returned
